@@ -132,9 +132,12 @@ func (fc *FnCtx) anchorGhostsFn(fn *ssa.Function, anchor string) []string {
 		return nil
 	}
 	var res []string
-	for _, kind := range []string{"before_call", "after_call"} {
+	for _, kind := range []string{"before_call", "after_call", "after_assign"} {
 		for _, c := range con.Extra[kind] {
 			if !strings.HasPrefix(c.Text, anchor+":") {
+				continue
+			}
+			if (kind == "after_assign") != strings.HasPrefix(anchor, "assign ") {
 				continue
 			}
 			stmt := strings.TrimSpace(c.Text[len(anchor)+1:])
